@@ -93,7 +93,12 @@ def make_tagged_case(rng):
         if len(members) == 1:
             members.append(T('none'))
         u = _union(members)
-        _add_field(rng, ty, rng.choice(POSITIONS)(u))
+        ft = rng.choice(POSITIONS)(u)
+        if rng.random() < 0.4:
+            # the Union is a field of a NESTED class (no Meta of its own), one or two levels below the main class
+            for _ in range(rng.choice([1, 1, 2])):
+                ft = rng.choice(POSITIONS[:4] + [lambda c_: T('optional', c_)])(_nested_holder(rng, ft))
+        _add_field(rng, ty, ft)
     # plain nested classes (no Meta of their own: everything they are configured with cascades from the main class)
     for _ in range(rng.choice([0, 1, 1, 2])):
         c = _plain_class(rng, o)
@@ -107,6 +112,12 @@ def make_tagged_case(rng):
         meta['auto_assign_tags'] = True
     if rng.random() < 0.5:
         meta['tag'] = model.fresh('root')
+    if rng.random() < 0.35:
+        # recursive_classes: nested dataclasses are reached through lazily built loaders; what it is for - a model that refers to itself
+        meta['recursive_classes'] = True
+        if rng.random() < 0.6:
+            _add_field(rng, ty, rng.choice([lambda r: T('optional', r), lambda r: T('optional', r), lambda r: T('list', r),
+                                            lambda r: T('dict', T('str'), r)])(T('selfref', name=ty['info']['name'])))
     ty['info']['meta'] = meta or None
     # ---- history
     pre = []
@@ -171,6 +182,76 @@ def make_value_case(rng):
             ft = _nested_holder(rng, ft)
         _add_field(rng, ty, ft)
     return ty
+
+
+# --------------------------------------------------------------------------- family: any identifier under the NONE key transform
+# "... and under the NONE transform for any identifier": every class of the tree gets field names drawn from all identifiers
+# (gen.any_identifier: camelCase / PascalCase / CAPS / one letter / leading, trailing, doubled underscores / digits / non-ASCII, and
+# several names of one class that coincide under a folding of letter case or underscores); the whole tree dumps with
+# key_transform_with_dump = NONE, configured in each of the ways the library offers.
+NONE_STYLES = ['py', 'py', 'inner', 'inner', 'bound', 'dumpmeta', 'toml', 'file']
+
+
+def _class_nodes_in(t, out):
+    k = t['k']
+    if k == 'cls':
+        if not any(t is c for c in out):
+            out.append(t)
+        for _, ft in t['ftys']:
+            _class_nodes_in(ft, out)
+    elif k in ('namedtuple', 'typeddict'):
+        for fld in t['fields']:
+            _class_nodes_in(fld[1], out)
+    else:
+        for x in t.get('a', []):
+            _class_nodes_in(x, out)
+    return out
+
+
+def rename_fields(rng, node, collide=0.45):
+    used = set()
+    ren = {}
+    for f in node['info']['fields']:
+        ren[f['name']] = gen.any_identifier(rng, used, collide)
+        f['name'] = ren[f['name']]
+    for e in node['ftys']:
+        e[0] = ren[e[0]]
+
+
+def make_ident_case(rng):
+    o = gen.Opts(**OPTS)
+    o.meta_keys = []
+    o.py_wizard_prob = 0.0
+    ty = gen.gen_cls(rng, rng.choice([0, 1, 1, 2]), o)
+    if rng.random() < 0.5:
+        # at least one nested class, at a container position
+        c = gen.gen_cls(rng, rng.choice([0, 0, 1]), o, nested=True)
+        _add_field(rng, ty, rng.choice(POSITIONS[:4] + [lambda c_: T('optional', c_)])(c))
+    nodes = _class_nodes_in(ty, [])
+    for node in nodes:
+        rename_fields(rng, node)
+        if node is not ty:
+            # nested classes: nothing of their own (the main class's setting cascades), or JSONPyWizard (NONE by itself)
+            tag = (node['info'].get('meta') or {}).get('tag')          # a member of a tagged Union keeps its tag
+            node['info']['meta'] = {'tag': tag} if tag else None
+            node['info']['wizard'] = rng.choice([True, False, False, 'py'])
+    style = rng.choice(NONE_STYLES)
+    info = ty['info']
+    info.pop('meta_steps', None)
+    if style == 'py':
+        info['wizard'], info['meta'] = 'py', None
+    elif style == 'inner':
+        info['wizard'], info['meta'] = True, {'key_transform_with_dump': 'NONE'}
+    elif style == 'file':
+        info['wizard'], info['meta'] = 'file', {'key_transform_with_dump': 'NONE'}
+    elif style == 'bound':
+        info['wizard'], info['meta'] = False, {'key_transform_with_dump': 'NONE'}
+    elif style == 'dumpmeta':
+        info['wizard'], info['meta'] = rng.choice([True, False]), {'key_transform_with_dump': 'NONE'}
+        info['meta_steps'] = [{'via': 'dump', 'meta': {'key_transform_with_dump': 'NONE'}}]
+    else:
+        info['wizard'], info['meta'] = 'toml', None
+    return ty, style
 
 
 def standalone_first_candidates(ty):
@@ -272,11 +353,19 @@ def run(ctx: C.Ctx):
                  'Meta or bound from outside the class (LoadMeta / DumpMeta style); Unions of dataclasses with explicit, automatic and '
                  'mixed tags at several container positions; plain nested classes whose field names come from the same pool as the tag '
                  'keys; histories in which nested classes are dumped / round-tripped on their own before the first use of the main class.')
+    ctx.rule += (' The Union of dataclasses as a field of the main class or of a nested class one or two levels below it (at container positions); '
+                 'recursive_classes = True on the main class, with and without a self reference (Optional / list / dict of the main class itself); '
+                 'the first operation on the freshly defined classes is the dump.')
     ctx.rule += (' Family value-shapes: Enums written as lookup tables (member values that read like the name of another / the same '
                  'member, in several letter-case / blank spellings; plain and str mix-in) at field / container / dict-key / Optional '
                  'positions; falsy-but-valid values (empty string, 0, 0.0, False, empty containers, zero Decimal / timedelta, midnight) '
                  'directly below Optional[Any | Literal with falsy members | Enum with a falsy-valued member | str | ...] as field, '
                  'list / deque / tuple element, dict value, nested-class field.')
+    ctx.rule += (' Family any-identifier: every class of the tree (main and nested, at container positions) with field names drawn from '
+                 'all identifiers - camelCase / PascalCase / CAPS / single letters / leading, trailing, doubled underscores / digits / non-ASCII '
+                 'letters, and several names of one class that coincide under a folding of letter case or underscores (t / T, id / ID / Id, '
+                 'userName / user_name / username) - dumped with key_transform_with_dump = NONE set through JSONPyWizard, an inner Meta, a Meta '
+                 'bound from outside, DumpMeta(..).bind_to, TOMLWizard or the JSON-file mixin.')
     n = ctx.quick(1200, 15000)
     reqs, pend = [], []
     for i in range(n):
@@ -298,7 +387,7 @@ def run(ctx: C.Ctx):
             built.close()
     # ---- directed family; each case has its own RNG (seed, family, j), so a replay regenerates just that case
     base = n
-    for fam, count in (('tagged-config', ctx.quick(500, 6000)), ('value-shapes', ctx.quick(500, 6000))):
+    for fam, count in (('tagged-config', ctx.quick(500, 6000)), ('value-shapes', ctx.quick(500, 6000)), ('any-identifier', ctx.quick(400, 5000))):
         for j in range(count):
             idx = base + j
             if ctx.done(idx):
@@ -306,7 +395,12 @@ def run(ctx: C.Ctx):
             if ctx.only is not None and ctx.only != idx:
                 continue
             crng = random.Random(f'C01:{ctx.seed}:{fam}:{j}')
-            ty, pre = make_tagged_case(crng) if fam == 'tagged-config' else (make_value_case(crng), [])
+            if fam == 'tagged-config':
+                ty, pre = make_tagged_case(crng)
+            elif fam == 'value-shapes':
+                ty, pre = make_value_case(crng), []
+            else:
+                (ty, style), pre = make_ident_case(crng), []
             try:
                 built = model.Built(ty)
             except Exception as e:
@@ -364,10 +458,11 @@ def one_case(ctx, ty, built, x, reqs, pend, pre=(), fam='roundtrip'):
     if jd is not None:
         out_j = load_outcome(lambda: fromdict(Cls, jd))
         check_rt(ctx, 'roundtrip:jsonified', case, out_j, x, src, key)
-        st = model.StdTables()
-        st.add_json(jd)
-        reqs.append({'op': 'load', 'ty': model.enc_ty(ty), 'doc': model.enc_j(jd), 'std': st.build()})
-        pend.append((case, out_j, built))
+        if not model.contains_kind(ty, 'selfref'):      # the class model of the driver is a tree: self-referential models are carried by the oracle alone
+            st = model.StdTables()
+            st.add_json(jd)
+            reqs.append({'op': 'load', 'ty': model.enc_ty(ty), 'doc': model.enc_j(jd), 'std': st.build()})
+            pend.append((case, out_j, built))
     if hasattr(Cls, 'from_json'):
         out = load_outcome(lambda: Cls.from_json(x.to_json()))
         check_rt(ctx, 'roundtrip:json', case, out, x, src, key)
